@@ -9,6 +9,7 @@ require (
 	github.com/fako1024/gotools/concurrency v0.0.0-20260108133916-d42cb4e89f05
 	github.com/fako1024/gotools/link v0.0.0-20260511092824-089d64760c34
 	github.com/fako1024/slimcap v1.0.12
+	golang.org/x/net v0.55.0
 )
 
 require (
@@ -59,7 +60,6 @@ require (
 	go.opentelemetry.io/proto/otlp v1.10.0 // indirect
 	go.yaml.in/yaml/v2 v2.4.4 // indirect
 	golang.org/x/crypto v0.52.0 // indirect
-	golang.org/x/net v0.55.0 // indirect
 	golang.org/x/sys v0.45.0 // indirect
 	golang.org/x/text v0.37.0 // indirect
 	golang.org/x/time v0.15.0 // indirect
